@@ -4,6 +4,7 @@
   Helper lemmas live in IcingaProofs/C01/Lemmas.lean.
 -/
 import IcingaProofs.C01.Lemmas
+import IcingaProofs.C01.Hist
 
 namespace Icinga.C01
 
@@ -43,21 +44,44 @@ theorem event_spec (c : Cfg) (hmax : 1 ≤ c.max) (s : St) (n : Nat) (hi : Inv c
   event_under_inv c hmax s n hi r
 
 /-- **model_trace_meets_spec** (the whole property as one statement).  For every configuration with
-    `max_check_attempts ≥ 1`, every start state with `attempt ≥ 1` — in particular the pending state —
-    and every finite sequence of results with arbitrary timestamps (stale ones are dropped), the
-    accepted part of the model's trace satisfies the executable specification `specTrace`:
-    universal invariants from the first result on, the exact streak characterisation and the
-    event rule from the first OK/Up result on. -/
+    `max_check_attempts ≥ 1`, every start state with `attempt ≥ 1` (and a two-slot history word below
+    10000, as every word the code writes is) — the never-checked state, any state the machine produces,
+    any other state a state file may hold — and every finite sequence of results with arbitrary
+    timestamps, the model's *whole* trace (accepted and dropped results) satisfies the executable
+    specification `specFull`: universal invariants from the first result on; the exact streak
+    characterisation and the event rule from the start state on when it has the shape of a reachable
+    state (`specStart`), else from the first OK/Up result on; `last_hard_state` is the state of the
+    result at the latest hard event and changes with hard events only; `previous_hard_state` is the hard
+    state before that; `last_state` is the state of the previous result; the API-visible states are the
+    projections; `vars_after` is the state after the result; a dropped result is strictly older than the
+    latest accepted one, reports nothing and changes nothing. -/
 theorem model_trace_meets_spec (c : Cfg) (hmax : 1 ≤ c.max) (s0 : St) (h0 : 1 ≤ s0.attempt)
-    (rs : List Res) :
-    specTrace c specInit (acceptedOf (trace c s0 rs)) = none :=
-  spec_trace_rel c hmax rs specInit s0 (rel_init c s0 h0)
+    (hh : s0.hist < 10000) (rs : List Res) :
+    specFull c (specStart c s0) (histStart c s0) (trace c s0 rs) = none :=
+  full_rel c hmax rs _ _ s0 (rel_start c hmax s0 h0) (hrel_start c s0 hh)
 
 /-- **pending_invariants.**  A never-checked checkable satisfies the specification from its very first
-    result. -/
+    result, with nothing assumed about its start (`specInit`, `histInit`: only the universal invariants
+    until the first OK/Up result, the bookkeeping clauses from the second observation on). -/
 theorem pending_invariants (c : Cfg) (hmax : 1 ≤ c.max) (rs : List Res) :
-    specTrace c specInit (acceptedOf (trace c pending rs)) = none :=
-  model_trace_meets_spec c hmax pending (by decide) rs
+    specFull c specInit histInit (trace c pending rs) = none :=
+  full_rel c hmax rs _ _ pending (rel_init c pending (by decide)) (hrel_init c pending (by decide) rfl)
+
+/-- **hard_state_bookkeeping** (one step, every state).  A hard event records the result's state as
+    `last_hard_state` and moves the old current slot of the two-slot history to the previous slot;
+    without a hard event a non-volatile object keeps both. -/
+theorem hard_state_bookkeeping (c : Cfg) (s : St) (r : Res) (hh : s.hist < 10000) :
+    ((stepCore c s r).2 = .hard →
+        (stepCore c s r).1.lastHard = r.state ∧ (stepCore c s r).1.hist / 100 = r.state.toNat ∧
+        (stepCore c s r).1.hist % 100 = s.hist / 100) ∧
+    ((stepCore c s r).2 ≠ .hard → c.volatile = false →
+        (stepCore c s r).1.lastHard = s.lastHard ∧ (stepCore c s r).1.hist = s.hist) := by
+  obtain ⟨_, _, _, f4⟩ := stepCore_facts c s r
+  have ht := toNat_le r.state
+  rcases f4 with ⟨fe, fl, fh⟩ | ⟨fe, fv, fl, fh⟩ | ⟨fe, fv, _, _, _, _⟩
+  · exact ⟨fun _ => ⟨fl, by rw [fh]; omega, by rw [fh]; omega⟩, fun hne => absurd fe hne⟩
+  · exact ⟨fun he => absurd he fe, fun _ _ => ⟨fl, fh⟩⟩
+  · exact ⟨fun he => absurd he fe, fun _ hv => by simp [fv] at hv⟩
 
 /-- **stale_result_ignored.**  A result whose execution start is older than the stored one (which is
     not in the future) leaves the state unchanged and emits nothing. -/
@@ -83,6 +107,45 @@ theorem nondecreasing_never_stale (c : Cfg) (s : St) (r : Res)
         simp [hc, this]
   simp [step, hs, stepCore]
 
+/-- Non-decreasing execution-start timestamps along a history (the quantifier's input class), relative
+    to the timestamp of the stored result. -/
+def NonDecr : Option Int → List Res → Prop
+  | _, [] => True
+  | last, r :: rs => (∀ cur, last = some cur → cur ≤ r.execStart) ∧ NonDecr (some r.execStart) rs
+
+/-- With non-decreasing timestamps the stale-result filter never fires: the production step function
+    `run` (with the filter) and the filter-free `runCore` agree. -/
+theorem run_eq_runCore (c : Cfg) (rs : List Res) :
+    ∀ s : St, NonDecr s.lastExec rs → run c s rs = runCore c s rs := by
+  induction rs with
+  | nil => intro s _; rfl
+  | cons r rs ih =>
+    intro s h
+    obtain ⟨h1, h2⟩ := h
+    obtain ⟨ha, hl⟩ := nondecreasing_never_stale c s r h1
+    have hs : (step c s r).1 = (stepCore c s r).1 := by
+      unfold step at ha ⊢
+      cases hst : stale s r
+      · simp
+      · simp [hst] at ha
+    have := ih (stepCore c s r).1 (by rw [← hs, hl]; exact h2)
+    simpa [run, runCore, List.foldl, hs] using this
+
+/-- **streak_characterisation_run** — the first sentence of the property for the production step
+    function including the stale-result filter: for every history with non-decreasing timestamps that
+    consists of anything, then an OK/Up result, then `n` non-OK results, from any start state. -/
+theorem streak_characterisation_run (c : Cfg) (hmax : 1 ≤ c.max) (s0 : St) (pre tail : List Res) (o : Res)
+    (ho : isOK c.kind o.state = true) (ht : ∀ r ∈ tail, isOK c.kind r.state = false)
+    (hts : NonDecr s0.lastExec (pre ++ [o] ++ tail)) :
+    let s := run c s0 (pre ++ [o] ++ tail)
+    let n := tail.length
+    ((n = 0 ∨ c.max ≤ n) → s.stype = .hard ∧ s.attempt = 1) ∧
+    ((0 < n ∧ n < c.max) → s.stype = .soft ∧ s.attempt = n) := by
+  intro s n
+  have := streak_characterisation c hmax s0 pre tail o ho ht
+  simp only [s, run_eq_runCore c _ s0 hts]
+  exact this
+
 /-- The model drops a result only when the specification allows it (`mayDrop`): it is strictly older
     than the latest accepted one. -/
 theorem dropped_only_if_older (c : Cfg) (s : St) (r : Res) (h : (step c s r).2.2 = false) :
@@ -100,18 +163,75 @@ theorem dropped_only_if_older (c : Cfg) (s : St) (r : Res) (h : (step c s r).2.2
       · simp [hc] at hs
         simp [mayDrop, hs]
 
-/-- **host_projection.**  For hosts the state type, attempt and event depend on the results only
-    through Up/Down: two start states and two results that agree after projection step to states
-    that agree after projection, with the same event. -/
+/-- **dropped_changes_nothing.**  A result the model does not process leaves the state as it was,
+    reports no event, and the specification's clause for dropped results accepts the observation. -/
+theorem dropped_changes_nothing (c : Cfg) (s : St) (r : Res) (h : (step c s r).2.2 = false) :
+    (step c s r).1 = s ∧ (step c s r).2.1 = .none ∧
+    dropStep { last := some (stObs c s), hardAt := none, lastExec := s.lastExec } r (obsOf c (step c s r)) = none := by
+  have hm := dropped_only_if_older c s r h
+  have hst : stale s r = true := by
+    unfold step at h
+    cases hs : stale s r
+    · simp [hs] at h
+    · rfl
+  simp [step, hst, dropStep, hm, obsOf, stObs, sameState]
+
+/-- **host_projection.**  For hosts the state type, attempt, event and the recorded hard state depend on
+    the results only through Up/Down: two start states and two results that agree after projection step
+    to states that agree after projection, with the same event. -/
 theorem host_projection (c : Cfg) (hk : c.kind = .host) (s1 s2 : St) (r1 r2 : Res)
     (hs : hostUp s1.state = hostUp s2.state) (ht : s1.stype = s2.stype) (ha : s1.attempt = s2.attempt)
+    (hl : hostUp s1.lastHard = hostUp s2.lastHard)
     (hr : hostUp r1.state = hostUp r2.state) :
     hostUp (stepCore c s1 r1).1.state = hostUp (stepCore c s2 r2).1.state ∧
     (stepCore c s1 r1).1.stype = (stepCore c s2 r2).1.stype ∧
     (stepCore c s1 r1).1.attempt = (stepCore c s2 r2).1.attempt ∧
+    hostUp (stepCore c s1 r1).1.lastHard = hostUp (stepCore c s2 r2).1.lastHard ∧
     (stepCore c s1 r1).2 = (stepCore c s2 r2).2 := by
-  simp only [stepCore, nextTypeAttempt, eventOf, hardChangeOf, stateChange, isOK, hk, hs, ht, ha, hr]
+  simp only [stepCore, nextTypeAttempt, eventOf, hardChangeOf, stateChange, isOK, hk, hs, ht, ha, hr,
+    apply_ite hostUp, hl]
   simp
+
+/-- What the property sees of a host's observation: everything through Up/Down. -/
+def hostView (o : Obs) : Bool × Bool × SType × Nat × Bool × Ev :=
+  (o.accepted, hostUp o.state, o.stype, o.attempt, hostUp o.lastHard, o.ev)
+
+/-- Two host states the property cannot tell apart. -/
+def HostSim (s1 s2 : St) : Prop :=
+  hostUp s1.state = hostUp s2.state ∧ s1.stype = s2.stype ∧ s1.attempt = s2.attempt ∧
+  hostUp s1.lastHard = hostUp s2.lastHard ∧ s1.lastExec = s2.lastExec
+
+/-- **host_projection_trace** ("Hosts treat OK/WARNING as Up and CRITICAL/UNKNOWN as Down
+    *throughout*").  Two histories of a host whose results agree pairwise after the Up/Down mapping
+    (same timestamps), from start states that agree after the mapping, produce traces that agree after
+    the mapping at every position: accepted/dropped, state type, attempt, event, Up/Down of the state
+    and of the recorded hard state. -/
+theorem host_projection_trace (c : Cfg) (hk : c.kind = .host) (rs : List (Res × Res))
+    (hr : ∀ p ∈ rs, hostUp p.1.state = hostUp p.2.state ∧ p.1.execStart = p.2.execStart ∧ p.1.now = p.2.now) :
+    ∀ s1 s2, HostSim s1 s2 →
+      (trace c s1 (rs.map Prod.fst)).map (fun q => hostView q.2) =
+      (trace c s2 (rs.map Prod.snd)).map (fun q => hostView q.2) := by
+  induction rs with
+  | nil => intro _ _ _; rfl
+  | cons p rs ih =>
+    intro s1 s2 hsim
+    obtain ⟨hs, ht, ha, hl, he⟩ := hsim
+    obtain ⟨h1, h2, h3⟩ := hr p (by simp)
+    have ih' := ih (fun q hq => hr q (by simp [hq]))
+    have hst : stale s1 p.1 = stale s2 p.2 := by simp [stale, he, h2, h3]
+    simp only [List.map_cons, trace]
+    cases hq : stale s2 p.2
+    · rw [hq] at hst
+      obtain ⟨g1, g2, g3, g4, g5⟩ := host_projection c hk s1 s2 p.1 p.2 hs ht ha hl h1
+      simp only [step, hst, hq, Bool.false_eq_true, if_false, List.map_cons]
+      congr 1
+      · simp [hostView, obsOf, g1, g2, g3, g4, g5]
+      · exact ih' _ _ ⟨g1, g2, g3, g4, by simp [stepCore, h2]⟩
+    · rw [hq] at hst
+      simp only [step, hst, hq, if_true, List.map_cons]
+      congr 1
+      · simp [hostView, obsOf, hs, ht, ha, hl]
+      · exact ih' _ _ ⟨hs, ht, ha, hl, he⟩
 
 /-- **soft_implies_last_hard_ok** (used by C02).  Along any history that starts in a state whose last
     hard state is OK/Up whenever it is soft, every soft state still has an OK/Up last hard state —
@@ -156,23 +276,99 @@ def exampleHistory : List Res :=
 
 def exampleCfg : Cfg := { kind := .service, max := 3, volatile := false }
 
-example : (acceptedOf (trace exampleCfg pending exampleHistory)).map (fun p => (p.2.stype, p.2.attempt, p.2.ev)) =
-    [(.hard, 1, .hard), (.soft, 1, .soft), (.soft, 2, .soft), (.hard, 1, .hard), (.hard, 1, .hard), (.hard, 1, .hard)] := by
+example : (trace exampleCfg pending exampleHistory).map (fun p => (p.2.stype, p.2.attempt, p.2.ev, p.2.lastHard, p.2.prevHard)) =
+    [(.hard, 1, .hard, .ok, 99), (.soft, 1, .soft, .ok, 99), (.soft, 2, .soft, .ok, 99),
+     (.hard, 1, .hard, .critical, 0), (.hard, 1, .hard, .warning, 2), (.hard, 1, .hard, .ok, 1)] := by
   decide
 
+/-- A consistent observation of a service: state, type, attempt, last hard state, event, previous hard
+    state, previous state. -/
+def svcObs (acc : Bool) (st : SState) (ty : SType) (at_ : Nat) (lh : SState) (e : Ev) (ph : Nat) (ls : SState) : Obs :=
+  { accepted := acc, state := st, stype := ty, attempt := at_, lastHard := lh, ev := e, prevHard := ph,
+    vaState := st.toNat, vaType := ty.toNat, vaAttempt := at_,
+    apiState := st.toNat, apiLastState := ls.toNat, apiLastHard := lh.toNat }
+
 /-- The specification is not trivially true: an observation with the wrong attempt is rejected. -/
-example : specTrace exampleCfg specInit
-    [(.ok, ⟨true, .ok, .hard, 1, .ok, .hard⟩), (.critical, ⟨true, .critical, .soft, 2, .ok, .soft⟩)]
+example : specFull exampleCfg specInit histInit
+    [(⟨.ok, 1, 1⟩, svcObs true .ok .hard 1 .ok .hard 99 .unknown),
+     (⟨.critical, 2, 2⟩, svcObs true .critical .soft 2 .ok .soft 99 .ok)]
     = some .streakSoft := by decide
 
 /-- … and so is a missing hard event at the last retry. -/
-example : specTrace { kind := .host, max := 2, volatile := false } specInit
-    [(.ok, ⟨true, .ok, .hard, 1, .ok, .hard⟩), (.critical, ⟨true, .critical, .soft, 1, .ok, .soft⟩),
-     (.unknown, ⟨true, .unknown, .hard, 1, .unknown, .soft⟩)]
+example : specFull { exampleCfg with max := 2 } specInit histInit
+    [(⟨.ok, 1, 1⟩, svcObs true .ok .hard 1 .ok .hard 99 .unknown),
+     (⟨.critical, 2, 2⟩, svcObs true .critical .soft 1 .ok .soft 99 .ok),
+     (⟨.unknown, 3, 3⟩, svcObs true .unknown .hard 1 .unknown .soft 99 .critical)]
     = some .event := by decide
 
+/-- The volatile exemption is narrow: a volatile object that reports a *soft* event at the last retry is
+    rejected (it is hard after that result) … -/
+example : specFull { exampleCfg with volatile := true } specInit histInit
+    [(⟨.ok, 1, 1⟩, svcObs true .ok .hard 1 .ok .hard 99 .unknown),
+     (⟨.critical, 2, 2⟩, svcObs true .critical .soft 1 .critical .hard 0 .ok),
+     (⟨.critical, 3, 3⟩, svcObs true .critical .soft 2 .critical .hard 2 .critical),
+     (⟨.critical, 4, 4⟩, svcObs true .critical .hard 1 .critical .soft 2 .critical)]
+    = some .event := by decide
+
+/-- … and so is one that reports nothing when it returns from a soft state to OK. -/
+example : specFull { exampleCfg with volatile := true } specInit histInit
+    [(⟨.ok, 1, 1⟩, svcObs true .ok .hard 1 .ok .hard 99 .unknown),
+     (⟨.critical, 2, 2⟩, svcObs true .critical .soft 1 .critical .hard 0 .ok),
+     (⟨.ok, 3, 3⟩, svcObs true .ok .hard 1 .critical .none 0 .critical)]
+    = some .event := by decide
+
+/-- A hard event that does not record the new hard state is rejected … -/
+example : specFull { exampleCfg with max := 1 } specInit histInit
+    [(⟨.ok, 1, 1⟩, svcObs true .ok .hard 1 .ok .hard 99 .unknown),
+     (⟨.critical, 2, 2⟩, svcObs true .critical .hard 1 .ok .hard 99 .ok)]
+    = some .lastHardAtHardEvent := by decide
+
+/-- … so is a hard state that moves without a hard event … -/
+example : specFull exampleCfg specInit histInit
+    [(⟨.ok, 1, 1⟩, svcObs true .ok .hard 1 .ok .hard 99 .unknown),
+     (⟨.critical, 2, 2⟩, svcObs true .critical .soft 1 .critical .soft 99 .ok)]
+    = some .lastHardUnchanged := by decide
+
+/-- … a `previous_hard_state` that shows the current instead of the previous hard state (the two slots
+    swapped) … -/
+example : specFull { exampleCfg with max := 1 } specInit histInit
+    [(⟨.ok, 1, 1⟩, svcObs true .ok .hard 1 .ok .hard 99 .unknown),
+     (⟨.critical, 2, 2⟩, svcObs true .critical .hard 1 .critical .hard 2 .ok)]
+    = some .previousHardState := by decide
+
+/-- … and a dropped result that is not older, or that changes something. -/
+example : specFull exampleCfg specInit histInit
+    [(⟨.ok, 5, 5⟩, svcObs true .ok .hard 1 .ok .hard 99 .unknown),
+     (⟨.critical, 5, 6⟩, svcObs false .ok .hard 1 .ok .none 99 .unknown)]
+    = some .droppedAlthoughNotOlder := by decide
+
+example : specFull exampleCfg specInit histInit
+    [(⟨.ok, 5, 5⟩, svcObs true .ok .hard 1 .ok .hard 99 .unknown),
+     (⟨.critical, 4, 6⟩, svcObs false .critical .hard 1 .ok .none 99 .unknown)]
+    = some .droppedChangesSomething := by decide
+
+/-- `NonDecr` holds of the example history from the pending state (premise of
+    `streak_characterisation_run`). -/
+example : NonDecr pending.lastExec exampleHistory := by
+  simp [NonDecr, exampleHistory, pending]
+
 /-- `Inv` is satisfiable at every streak length (premise of `event_spec`). -/
-example : Inv exampleCfg ⟨.critical, .soft, 2, .ok, none⟩ 2 := by
-  simp [Inv, exampleCfg, isOK]
+example : Inv exampleCfg { pending with state := .critical, attempt := 2, lastHard := .ok } 2 := by
+  simp [Inv, exampleCfg, isOK, pending]
+
+/-- A restored start state in the middle of a retry series is held to the whole property at once:
+    `specStart` reads streak 2 from (CRITICAL, soft, 2). -/
+example : specStart exampleCfg { pending with state := .critical, attempt := 2, lastHard := .ok, hist := 99 } =
+    { everOk := true, streak := 2, prev := .critical } := by decide
+
+/-- Premises of `host_projection_trace` on a non-trivial pair: OK/CRITICAL/UNKNOWN against
+    WARNING/UNKNOWN/CRITICAL. -/
+example : HostSim pending pending ∧
+    ∀ p ∈ [((⟨.ok, 1, 1⟩ : Res), (⟨.warning, 1, 1⟩ : Res)), (⟨.critical, 2, 2⟩, ⟨.unknown, 2, 2⟩)],
+      hostUp p.1.state = hostUp p.2.state ∧ p.1.execStart = p.2.execStart ∧ p.1.now = p.2.now := by
+  refine ⟨⟨rfl, rfl, rfl, rfl, rfl⟩, ?_⟩
+  intro p hp
+  simp at hp
+  rcases hp with rfl | rfl <;> decide
 
 end Icinga.C01
